@@ -23,10 +23,12 @@ import (
 func init() { Registry["C09"] = runC09 }
 
 // refBaseFee is the property's formula, written independently of the implementation.
-// ok=false when the property fixes no value (gas target 0).
+// ok=false when the property fixes no value (gas target 0, i.e. MaxGas 1).
+// A consensus MaxGas of −1 and of 0 both mean "no block gas limit" (baseapp builds an infinite block gas meter for either): the
+// block gas limit the formula halves is then the largest representable one.
 func refBaseFee(b *big.Int, used uint64, maxGas int64, minFloor *big.Int) (*big.Int, bool) {
 	var limit uint64
-	if maxGas < 0 {
+	if maxGas <= 0 {
 		limit = math.MaxUint64
 	} else {
 		limit = uint64(maxGas)
@@ -402,7 +404,7 @@ func c09RunAdm(c c09AdmCase) (fs []ev.Finding, outcome string) {
 func runC09(replay string) int {
 	run := ev.NewRun("C09", "model_checking")
 	run.Assumptions = []string{
-		"the reference formula is the property's sentence transcribed with big integers; for a gas target of 0 (MaxGas 0 or 1) only absence of failure is required",
+		"the reference formula is the property's sentence transcribed with big integers; MaxGas −1 and 0 both mean an unlimited block (limit 2^64−1, as baseapp and the unchanged keeper treat them); for a gas target of 0 (MaxGas 1) only absence of failure is required",
 		"base fees above 2^255 are outside the grid (an increase would not fit the 256-bit integer type)",
 		"block gas used is Σ ExecTxResult.GasUsed clamped to the block limit (baseapp's block gas meter)",
 	}
